@@ -125,7 +125,8 @@ impl AsyncWrite for End {
         let mw = k.max_write;
         let n = k.chunk(mw, data.len());
         let mut g = self.tx.lock().unwrap();
-        if g.closed {
+        if g.closed || g.staging.len() + g.inbox.len() > (48 << 20) {
+            // closed, or a runaway writer (more than 48 MB held by the harness): fail instead of exhausting memory
             return Poll::Ready(Err(std::io::ErrorKind::BrokenPipe.into()));
         }
         g.written += n as u64;
